@@ -1041,6 +1041,46 @@ func liveServer() {
 					run.Distinct("live-fin|tls|" + v.name)
 				}(v)
 			}
+			// frps reads exactly one frame as the first message: bytes that follow it in the same segment belong to
+			// whoever takes the connection over (here: an stcp visitor that sends its payload without waiting)
+			if r, err := honest.NewProxy(&msg.NewProxy{ProxyName: "pipe17", ProxyType: "stcp", Sk: "sk17", AllowUsers: []string{"*"}}, 10*time.Second); err == nil && r.Error == "" {
+				for rep := 0; rep < run.N(6, 24); rep++ {
+					wg.Add(1)
+					go func(rep int) {
+						defer wg.Done()
+						sp, derr := h.DialPeer(h.PeerOpts{ServerPort: port, TCPMux: mux, Token: "t17", SkipLogin: true})
+						if derr != nil {
+							run.Inconclusive("live: dial failed")
+							return
+						}
+						defer sp.Close()
+						ts := time.Now().Unix()
+						first, _ := encode(&msg.NewVisitorConn{RunID: "", ProxyName: "pipe17", SignKey: h.AuthKey("sk17", ts), Timestamp: ts})
+						nonce := []byte(fmt.Sprintf("N%015x", rep))
+						extra := append([]byte{}, nonce...)
+						if rep%2 == 1 { // more than one buffer's worth behind the frame
+							extra = append(extra, bytes.Repeat([]byte{'x'}, 6000)...)
+						}
+						_, _ = sp.Ctl.Write(append(first, extra...))
+						_ = sp.Ctl.SetReadDeadline(time.Now().Add(20 * time.Second))
+						var resp msg.NewVisitorConnResp
+						if err := msg.ReadMsgInto(sp.Ctl, &resp); err != nil || resp.Error != "" {
+							run.Inconclusive("live: pipelining visitor was not admitted")
+							return
+						}
+						want := "H|pipe17|" + string(nonce)
+						got := make([]byte, len(want))
+						if _, err := io.ReadFull(sp.Ctl, got); err != nil || string(got) != want {
+							run.Violation("bytes-after-first-frame-lost", "tcpMux=%v: a visitor sent NewVisitorConn and %d payload bytes in one write; it was admitted, but the backend's answer to the payload is %q (%v) instead of %q: bytes behind the first frame did not reach the proxy", mux, len(extra), got, err, want)
+							return
+						}
+						run.Count("live_pipelined_first_frames", 1)
+						run.Distinct(fmt.Sprintf("live-pipeline|%v|%d", mux, rep%2))
+					}(rep)
+				}
+			} else {
+				run.Inconclusive("live: stcp proxy for the pipelining test was not registered")
+			}
 			// every registered message type, sent by a logged-in peer on its control connection: frps handles six of
 			// them and has no handler for the rest; whatever it does with the session, it stays up for the others
 			for _, wt := range wire {
